@@ -7,7 +7,10 @@
    base and appear in the theorem statements.
    The No-Code development is Proofs/C02Full.v; the lemmas that do not depend on the scheme are reused from
    there, the block invariant and everything above it are re-proved here for the four schemes at once
-   (section RSDelivery, parameter cls = Reed-Solomon or not). *)
+   (section RSDelivery, parameter cls = Reed-Solomon or not).
+   Model/ObjRecv.v after fixes D10 / D28 / D33 / D34: RaptorQ discards a symbol whose size is not E and refuses scheme
+   parameters outside the raptorq crate's range; Raptor pads a short symbol with zeros up to ceil(block length / k)
+   and refuses k outside 1..8192; FEC 2 (FRS2M) has no decoder at all. *)
 From FluteV Require Import Model.Partition Spec.C07Spec Proofs.PartitionProofs Model.ObjRecv
   Spec.RecvSpec Spec.SessionSpec Proofs.SessionProofs Proofs.C02Full.
 From Coq Require Import Lia FinFun.
@@ -32,6 +35,8 @@ Lemma take_take a b (l : list N) : take a (take b l) = take (N.min a b) l.
 Proof. unfold take. rewrite firstn_firstn. f_equal. lia. Qed.
 Lemma lenN_repeat (x : N) m : lenN_ (repeat x m) = N.of_nat m.
 Proof. unfold lenN_. rewrite repeat_length. reflexivity. Qed.
+Lemma pad_to_ge t (x : list N) : t <= lenN_ x -> pad_to t x = x.
+Proof. intros H. unfold pad_to. replace (N.to_nat (t - lenN_ x)) with 0%nat by lia. apply app_nil_r. Qed.
 
 (* the object padded with zeros to a whole number of encoding symbols: what the Reed-Solomon encoder
    works on (fec/rscodec.rs create_shards resizes the last chunk of a block to E with zeros) *)
@@ -123,6 +128,19 @@ Section Pad.
       unfold soff in C1. rewrite (sym_off_succ al as_ nal s) in C1. fold (sof s) (kof s) in C1. rewrite N.mul_add_distr_r in C1. lia.
   Qed.
 
+  (* a symbol of the padded object has E bytes; the Raptor decoder's symbol size is at most E *)
+  Lemma psym_len j : j < T -> lenN_ (psym j) = e.
+  Proof.
+    intros Hj. unfold psym. rewrite lenN_take, lenN_drop, lenN_cpad.
+    assert ((j + 1) * e <= T * e) by (apply N.mul_le_mono_r; lia). lia.
+  Qed.
+  Lemma rss_le s : s < n -> raptor_symbol_size (bln s) (kof s) <= e.
+  Proof.
+    intros Hs. destruct (PF blen_spec s Hs) as (B1 & _ & _). pose proof (PF k_pos s) as Kp.
+    unfold raptor_symbol_size. replace (N.max (kof s) 1) with (kof s) by lia.
+    destruct (div_ceil_is_ceil (bln s) (kof s) Kp) as [_ C]. apply C. lia.
+  Qed.
+
   (* reassembling stored source symbols of the padded object *)
   Lemma concat_src_pad kk o sh :
     Forall (fun p : N * list N => fst p < kk -> snd p = psym (o + fst p)) sh ->
@@ -186,21 +204,16 @@ Section RSDelivery.
 
   (* the decoder of every block can be created (ReedSolomon::new succeeds: rs_ok; RaptorQ / Raptor: the
      scheme-specific information is present): needed for delivery only *)
+  (* RaptorQDecoder::new / RaptorDecoder::new accept a block of k symbols (fixes D28, D34) *)
+  Definition fq_dec_ok (k : N) : bool :=
+    match ro_fec oti, ro_scheme oti with
+    | FRaptorQ, Some (_, nn, al_) =>
+      negb ((e =? 0) || (al_ =? 0) || negb (e mod al_ =? 0) || (nn =? 0) || (k =? 0) || (RAPTORQ_KMAX <? k))
+    | FRaptor, Some _ => negb ((k =? 0) || (RAPTOR_KMAX <? k))
+    | _, _ => false
+    end.
   Definition InitOk : Prop :=
-    forall s, s < n -> if cls then rs_ok (kof s) par = true else is_some_b (ro_scheme oti) = true.
-
-  (* the genuine encoding symbol (s, i).  Reed-Solomon: a source symbol of the padded object, or the sender's
-     repair symbol; RaptorQ / Raptor: whatever the sender's encoder produces for (s, i) *)
-  Definition esym (s i : N) : list N := if cls && (i <? kof s) then psymb (sof s + i) else rep s i.
-  Definition esi_ok (s i : N) : Prop := cls = true -> i < kof s + par.
-  Definition shard_ok (s : N) (p : N * list N) : Prop := esi_ok s (fst p) /\ snd p = esym s (fst p).
-
-  (* what a decoded block must be: the block of the object, possibly followed by padding if it is the last *)
-  Definition Good (s : N) (d : list N) : Prop := take (bln s) d = blkb s /\ (s + 1 < n -> lenN_ d = bln s).
-  (* when the model may consult the oracle / when the oracle is expected to answer *)
-  Definition Callable (s : N) (sh : list (N * list N)) : Prop := cls = true -> kof s <= N.of_nat (length sh).
-  Definition Decodable (s : N) (sh : list (N * list N)) : Prop :=
-    if cls then kof s <= N.of_nat (length sh) else forall j, j < kof s -> has_esi j sh = true.
+    forall s, s < n -> (if cls then rs_ok (kof s) par else fq_dec_ok (kof s)) = true.
 
   (* ---------- memory accounting ---------- *)
   (* bytes the receiver accounts for a block: its length, but k * E for FEC 129 (the source block
@@ -224,6 +237,36 @@ Section RSDelivery.
       rewrite N.mul_add_distr_r in *. lia.
     - reflexivity.
   Qed.
+
+  (* the genuine encoding symbol (s, i).  Reed-Solomon: a source symbol of the padded object, or the sender's
+     repair symbol; RaptorQ / Raptor: whatever the sender's encoder produces for (s, i) *)
+  Definition esym (s i : N) : list N := if cls && (i <? kof s) then psymb (sof s + i) else rep s i.
+  Definition esi_ok (s i : N) : Prop := cls = true -> i < kof s + par.
+  (* what the block decoder stores for a payload: Raptor pads it with zeros up to the size of the largest
+     source symbol of the block, ceil(block length / k) (fixes D10) *)
+  Definition stored (s : N) (x : list N) : list N :=
+    match ro_fec oti with FRaptor => pad_to (raptor_symbol_size (bsz s) (kof s)) x | _ => x end.
+  (* RaptorQ keeps only the symbols of E bytes (fixes D10) *)
+  Definition sized (x : list N) : Prop := ro_fec oti = FRaptorQ -> lenN_ x = e.
+  Definition accb (x : list N) : bool := match ro_fec oti with FRaptorQ => lenN_ x =? e | _ => true end.
+  Definition shard_ok (s : N) (p : N * list N) : Prop :=
+    esi_ok s (fst p) /\ snd p = stored s (esym s (fst p)) /\ sized (snd p).
+  Lemma stored_cls s x : cls = true -> stored s x = x.
+  Proof. clear Hfec. unfold cls, stored. intros H. destruct (ro_fec oti); try discriminate H; reflexivity. Qed.
+  Lemma accb_sized x : accb x = true <-> sized x.
+  Proof.
+    clear Hfec. unfold accb, sized. destruct (ro_fec oti); try (split; [intros _ X; discriminate X|reflexivity]).
+    split; [intros H _; apply N.eqb_eq; exact H|intros H; apply N.eqb_eq; apply H; reflexivity].
+  Qed.
+  Lemma sized_stored s x : sized x -> sized (stored s x).
+  Proof. clear Hfec. unfold sized, stored. intros H F. rewrite F in *. apply H. reflexivity. Qed.
+
+  (* what a decoded block must be: the block of the object, possibly followed by padding if it is the last *)
+  Definition Good (s : N) (d : list N) : Prop := take (bln s) d = blkb s /\ (s + 1 < n -> lenN_ d = bln s).
+  (* when the model may consult the oracle / when the oracle is expected to answer *)
+  Definition Callable (s : N) (sh : list (N * list N)) : Prop := cls = true -> kof s <= N.of_nat (length sh).
+  Definition Decodable (s : N) (sh : list (N * list N)) : Prop :=
+    if cls then kof s <= N.of_nat (length sh) else forall j, j < kof s -> has_esi j sh = true.
 
   (* THE ORACLE: it never answers a wrong block when it is given genuine symbols (Reed-Solomon: at least k) *)
   Hypothesis Hsound : forall s sh d, s < n -> Callable s sh ->
@@ -277,30 +320,31 @@ Section RSDelivery.
     bd_completed d = false -> bd_alloc d = true -> bd_data d = None ->
     bd_push E t oti s esi payload d =
     (let k := bd_k d in
-     let sh := if negb (has_esi esi (bd_shards d)) then bd_shards d ++ [(esi, payload)] else bd_shards d in
+     let pl := match ro_fec oti with FRaptor => pad_to (raptor_symbol_size (bd_size d) k) payload | _ => payload end in
+     let sh := if accb payload && negb (has_esi esi (bd_shards d)) then bd_shards d ++ [(esi, pl)] else bd_shards d in
      let data := e_fec E t (ro_fec oti) s k e (bd_size d) sh in
      (mk_bdec (is_some_b data) true (bd_size d) k sh data true, false)).
   Proof.
     intros Hcls Hc Ha Hd. unfold bd_push. rewrite Hc, Ha, Hd. cbn [negb]. fold par e.
-    unfold cls in Hcls. destruct (ro_fec oti); try discriminate Hcls; try discriminate Hfec;
+    unfold cls in Hcls. unfold accb. destruct (ro_fec oti); try discriminate Hcls; try discriminate Hfec;
       cbv iota beta zeta; rewrite andb_true_r; reflexivity.
   Qed.
 
-  Lemma push_shards s esi payload sh0 : NoDup (map fst sh0) -> Forall (shard_ok s) sh0 ->
-    esi_ok s esi -> payload = esym s esi ->
-    let sh := if negb (has_esi esi sh0) then sh0 ++ [(esi, payload)] else sh0 in
-    NoDup (map fst sh) /\ Forall (shard_ok s) sh /\ has_esi esi sh = true
+  Lemma push_shards s esi payload (acc : bool) sh0 : NoDup (map fst sh0) -> Forall (shard_ok s) sh0 ->
+    esi_ok s esi -> payload = stored s (esym s esi) -> (acc = true -> sized payload) ->
+    let sh := if acc && negb (has_esi esi sh0) then sh0 ++ [(esi, payload)] else sh0 in
+    NoDup (map fst sh) /\ Forall (shard_ok s) sh /\ (acc = true -> has_esi esi sh = true)
     /\ (forall i, has_esi i sh0 = true -> has_esi i sh = true).
   Proof.
-    intros I6 I7 Hesi Hpay sh. split; [|split; [|split]].
-    - unfold sh. destruct (has_esi esi sh0) eqn:H; cbn [negb]; [exact I6|].
+    intros I6 I7 Hesi Hpay Hsz sh. split; [|split; [|split]].
+    - unfold sh. destruct acc; cbn [andb]; [|exact I6]. destruct (has_esi esi sh0) eqn:H; cbn [negb]; [exact I6|].
       rewrite map_app. cbn [map fst]. apply NoDup_app_single; [exact I6|].
       intros C. apply has_esi_in in C. congruence.
-    - unfold sh. destruct (has_esi esi sh0); cbn [negb]; [exact I7|].
-      apply Forall_app. split; [exact I7|]. constructor; [|constructor]. split; cbn [fst snd]; assumption.
-    - unfold sh. destruct (has_esi esi sh0) eqn:H; cbn [negb]; [exact H|].
+    - unfold sh. destruct acc; cbn [andb]; [|exact I7]. destruct (has_esi esi sh0); cbn [negb]; [exact I7|].
+      apply Forall_app. split; [exact I7|]. constructor; [|constructor]. split; [|split]; cbn [fst snd]; auto.
+    - intros ->. unfold sh. cbn [andb]. destruct (has_esi esi sh0) eqn:H; cbn [negb]; [exact H|].
       apply has_esi_in. rewrite map_app. apply in_or_app. right. left. reflexivity.
-    - intros i H. unfold sh. destruct (has_esi esi sh0); cbn [negb]; [exact H|].
+    - intros i H. unfold sh. destruct (acc && negb (has_esi esi sh0)); [|exact H].
       apply has_esi_in. rewrite map_app. apply in_or_app. left. apply has_esi_in. exact H.
   Qed.
 
@@ -316,19 +360,24 @@ Section RSDelivery.
     - intros _. exists dd. split; [reflexivity|exact G].
   Qed.
 
+  (* the symbol is stored (or was already) provided RaptorQ accepts its size *)
   Lemma bd_push_ok s esi payload d :
     BlockInit s d -> bd_completed d = false -> esi_ok s esi -> payload = esym s esi ->
     let r := bd_push E toi oti s esi payload d in
-    snd r = false /\ BlockInit s (fst r) /\ has_esi esi (bd_shards (fst r)) = true
+    snd r = false /\ BlockInit s (fst r) /\ (sized payload -> has_esi esi (bd_shards (fst r)) = true)
     /\ (forall i, has_esi i (bd_shards d) = true -> has_esi i (bd_shards (fst r)) = true).
   Proof.
     intros [I1 I2 I3 I4 I5 I6 I7 I8 I9] Hc Hesi Hpay. destruct (I8 Hc) as [Hd _].
-    destruct (push_shards s esi payload (bd_shards d) I6 I7 Hesi Hpay) as (S1 & S2 & S3 & S4). cbv zeta in S1, S2, S3, S4.
     cbv zeta. destruct cls eqn:Hcls.
-    - rewrite (bd_push_rs toi s esi payload d Hcls Hc I4 Hd). cbv zeta. rewrite I2, I3.
+    - assert (Hpay' : payload = stored s (esym s esi)) by (rewrite stored_cls by exact Hcls; exact Hpay).
+      assert (Hsz : true = true -> sized payload).
+      { intros _ F. unfold cls in Hcls. rewrite F in Hcls. discriminate. }
+      destruct (push_shards s esi payload true (bd_shards d) I6 I7 Hesi Hpay' Hsz) as (S1 & S2 & S3 & S4).
+      cbv zeta in S1, S2, S3, S4. cbn [andb] in S1, S2, S3, S4. specialize (S3 eq_refl).
+      rewrite (bd_push_rs toi s esi payload d Hcls Hc I4 Hd). cbv zeta. rewrite I2, I3.
       pose proof (Hesi Hcls) as Hlt. destruct (N.ltb_spec esi (kof s + par)) as [_|G]; [|lia]. cbn [andb].
       set (sh := if negb (has_esi esi (bd_shards d)) then bd_shards d ++ [(esi, payload)] else bd_shards d) in *.
-      clearbody sh. cbn [fst snd]. split; [reflexivity|]. split; [|split; [exact S3|exact S4]].
+      clearbody sh. cbn [fst snd]. split; [reflexivity|]. split; [|split; [intros _; exact S3|exact S4]].
       apply push_finish; [exact I5|exact S1|exact S2|].
       destruct (N.leb_spec (kof s) (N.of_nat (length sh))) as [Hk|Hk].
       2:{ left. split; [reflexivity|]. intros _. unfold Decodable. rewrite Hcls. lia. }
@@ -341,16 +390,24 @@ Section RSDelivery.
         destruct (concat_src (N.to_nat (kof s)) 0 sh) as [dat|] eqn:C; [|congruence].
         f_equal. rewrite (concat_src_pad oti content He Hb HL (kof s) (sof s) sh) with (m := N.to_nat (kof s)) (i := 0) (d := dat).
         * unfold pblk. fold e. f_equal; [lia|]. f_equal. lia.
-        * eapply Forall_impl; [|exact S2]. intros p [_ Hp] Hlt'. rewrite Hp. unfold esym. rewrite Hcls. cbn [andb].
+        * eapply Forall_impl; [|exact S2]. intros p (_ & Hp & _) Hlt'. rewrite Hp. rewrite stored_cls by exact Hcls.
+          unfold esym. rewrite Hcls. cbn [andb].
           destruct (N.ltb_spec (fst p) (kof s)); [reflexivity|lia].
         * lia.
         * exact C.
       + destruct (e_fec E toi (ro_fec oti) s (kof s) e (bsz s) sh) as [dd|] eqn:O.
         * right. exists dd. split; [reflexivity|]. exact (Hsound s sh dd I5 (fun _ => Hk) S1 S2 O).
         * left. split; [reflexivity|]. intros HM HD. exact (HM s sh I5 HD S1 S2 O).
-    - rewrite (bd_push_fq toi s esi payload d Hcls Hc I4 Hd). cbv zeta. rewrite I2, I3.
-      set (sh := if negb (has_esi esi (bd_shards d)) then bd_shards d ++ [(esi, payload)] else bd_shards d) in *.
-      clearbody sh. cbn [fst snd]. split; [reflexivity|]. split; [|split; [exact S3|exact S4]].
+    - rewrite (bd_push_fq toi s esi payload d Hcls Hc I4 Hd). cbv zeta. rewrite I2, I3. fold (stored s payload).
+      assert (Hpay' : stored s payload = stored s (esym s esi)) by (rewrite Hpay; reflexivity).
+      assert (Hsz : accb payload = true -> sized (stored s payload)).
+      { intros H. apply sized_stored. apply accb_sized. exact H. }
+      destruct (push_shards s esi (stored s payload) (accb payload) (bd_shards d) I6 I7 Hesi Hpay' Hsz) as (S1 & S2 & S3 & S4).
+      cbv zeta in S1, S2, S3, S4.
+      set (sh := if accb payload && negb (has_esi esi (bd_shards d))
+                 then bd_shards d ++ [(esi, stored s payload)] else bd_shards d) in *.
+      clearbody sh. cbn [fst snd]. split; [reflexivity|].
+      split; [|split; [intros Hz; apply S3; apply accb_sized; exact Hz|exact S4]].
       apply push_finish; [exact I5|exact S1|exact S2|].
       destruct (e_fec E toi (ro_fec oti) s (kof s) e (bsz s) sh) as [dd|] eqn:O.
       + right. exists dd. split; [reflexivity|].
@@ -474,7 +531,8 @@ Section RSDelivery.
     { unfold init_partition. destruct (N.ltb_spec 0 (nb_block o0)) as [_|G]; [reflexivity|lia]. }
     assert (I2 : init_writer E o0 c = (o0, c)) by reflexivity.
     assert (I3 : push_from_cache E o0 c = (o0, c)).
-    { unfold push_from_cache. destruct (N.eqb_spec (nb_block o0) 0) as [G|_]; [lia|]. reflexivity. }
+    { unfold push_from_cache, cache_replay_blocked. change (r_oti o0) with (Some oti). cbv iota beta.
+      destruct (N.eqb_spec (nb_block o0) 0) as [G|_]; [lia|]. reflexivity. }
     rewrite I1, I2. cbv iota beta. change (ObjRecv.r_state o0) with Receiving. cbv iota beta.
     rewrite I3. cbv iota beta. change (ObjRecv.r_state o0) with Receiving. cbv iota beta.
     change (ObjRecv.r_oti o0) with (Some oti). cbv iota beta. reflexivity.
@@ -626,19 +684,20 @@ Section RSDelivery.
   Qed.
 
   Definition bad (o : objrecv) : Prop := r_state o = Errored \/ r_state o = Interrupted.
-  Definition POut (nice : Prop) (o : objrecv) (s i : N) (r : res * ctx) : Prop :=
+  (* P: the payload has a size the decoder keeps (RaptorQ: E); only then is the symbol known to be stored *)
+  Definition POut (P nice : Prop) (o : objrecv) (s i : N) (r : res * ctx) : Prop :=
     match r with
-    | (ROk o', c') => (Struct o' c' /\ Mono o o' /\ LiveOne s i o') \/ (r_state o' = Completed /\ SDone c')
+    | (ROk o', c') => (Struct o' c' /\ Mono o o' /\ (P -> LiveOne s i o')) \/ (r_state o' = Completed /\ SDone c')
                       \/ (bad o' /\ SErr c' /\ ~ nice)
     | (RErr o', c') => (exists ws, r_writer o' = Some (w, ws)) /\ (exists off, SRecv c' off) /\ ~ nice
     end.
-  Lemma pout_weaken (nice nice' : Prop) o s i r : (nice' -> nice) -> POut nice o s i r -> POut nice' o s i r.
+  Lemma pout_weaken (P nice nice' : Prop) o s i r : (nice' -> nice) -> POut P nice o s i r -> POut P nice' o s i r.
   Proof. intros H. destruct r as [[o'|o'] c']; cbn [POut]; tauto. Qed.
-  Lemma wout_pout nice o o1 s i r : Mono o o1 -> LiveOne s i o1 -> WOut nice o1 r -> POut nice o s i r.
+  Lemma wout_pout (P : Prop) nice o o1 s i r : Mono o o1 -> (P -> LiveOne s i o1) -> WOut nice o1 r -> POut P nice o s i r.
   Proof.
     intros M0 Lv. destruct r as [[o'|o'] c']; cbn [WOut POut].
     - intros [[S1 M1]|[H|(H1 & H2 & H3)]]; [left|right; left; exact H|right; right].
-      + split; [exact S1|]. split; [intros s' i' H; apply M1, M0, H|apply M1, Lv].
+      + split; [exact S1|]. split; [intros s' i' H; apply M1, M0, H|intros HP; apply M1, Lv, HP].
       + split; [left; exact H1|]. split; assumption.
     - intros [[H1 H2] H3]. split; [eexists; exact H1|]. split; assumption.
   Qed.
@@ -652,7 +711,7 @@ Section RSDelivery.
     (bd_init d = true -> b1 = d /\ sz = r_alloc_size o) ->
     (bd_init d = false -> sz = r_alloc_size o + bsz sbn) ->
     esi_ok sbn esi -> payload = esym sbn esi ->
-    POut NiceEnv o sbn esi
+    POut (sized payload) NiceEnv o sbn esi
       (let (b2, pan) := bd_push E (r_toi o) oti sbn esi payload b1 in
        let c1 := if pan then panicc c else c in
        let o1 := set_blocks o (upd_nthb idx (fun _ => b2) (r_blocks o)) (r_off o) nb sz (r_bw o) in
@@ -684,8 +743,8 @@ Section RSDelivery.
         split; [apply (bi_init _ _ Q2)|]. right. destruct H3 as [H3|H3]; [congruence|].
         apply Q4. destruct (Hinit H2) as [-> _]. exact H3.
       - rewrite nth_upd_ne' by exact Ne. exact H2. }
-    assert (Lv : LiveOne sbn esi o1).
-    { right. split; [exact Hge|]. unfold o1, set_blocks; prj. fold idx. rewrite nth_upd_eq' by exact Hidx.
+    assert (Lv : sized payload -> LiveOne sbn esi o1).
+    { intros Hz. specialize (Q3 Hz). right. split; [exact Hge|]. unfold o1, set_blocks; prj. fold idx. rewrite nth_upd_eq' by exact Hidx.
       split; [apply (bi_init _ _ Q2)|right; exact Q3]. }
     destruct (bd_completed b2) eqn:Hc2.
     2:{ cbn [POut]. left. split; [|split; [exact M1|exact Lv]]. destruct P1 as [S1 D1]. split; [exact S1|split; [exact D1|]].
@@ -695,7 +754,7 @@ Section RSDelivery.
     destruct (N.eq_dec sbn (r_off o)) as [Eq|Ne].
     - (* the first block of the window completed: flush *)
       rewrite Eq. change (r_off o) with (r_off o1) at 2.
-      apply (wout_pout _ o o1); [exact M1|rewrite <- Eq; exact Lv|]. apply wb_loop; [exact P1|lia].
+      apply (wout_pout _ _ o o1); [exact M1|rewrite <- Eq; exact Lv|]. apply wb_loop; [exact P1|lia].
     - (* a later block completed: nothing can be written yet *)
       cbn [write_blocks]. destruct P1 as [S1 D1]. rewrite (st_writer _ S1).
       destruct (dy_bw _ _ D1) as (bw & Hbw & BW). rewrite Hbw.
@@ -712,7 +771,7 @@ Section RSDelivery.
       unfold Flushed, o1, set_blocks; prj. rewrite nth_upd_ne'; [exact Fl|]. unfold idx. lia.
   Qed.
 
-  Lemma pout_mono nice o o0 s i r : Mono o o0 -> POut nice o0 s i r -> POut nice o s i r.
+  Lemma pout_mono (P : Prop) nice o o0 s i r : Mono o o0 -> POut P nice o0 s i r -> POut P nice o s i r.
   Proof.
     intros M0. destruct r as [[o'|o'] c']; cbn [POut]; [|tauto].
     intros [(S1 & M1 & L1)|H]; [left|right; exact H]. split; [exact S1|]. split; [|exact L1].
@@ -729,13 +788,13 @@ Section RSDelivery.
   Definition Nice2 : Prop := NiceEnv /\ M <= max /\ n <= 4097 /\ InitOk.
 
   Lemma p2b o c p sbn esi : Struct o c -> genuine_at p sbn esi ->
-    POut Nice2 o sbn esi (push_to_block2 E p o c).
+    POut (sized (a_payload p)) Nice2 o sbn esi (push_to_block2 E p o c).
   Proof.
     intros S0 (Hpid & Hlt & Hesi & Hpay). pose proof S0 as (St & Dy & Fl).
     unfold push_to_block2. rewrite (st_oti _ St), (st_tlen _ St), Hpid.
     destruct (N.eqb_spec L 0) as [G|_]; [lia|].
     destruct (N.ltb_spec sbn (r_off o)) as [Hold|Hge].
-    { cbn [POut]. left. split; [exact S0|]. split; [intros ? ? H; exact H|left; exact Hold]. }
+    { cbn [POut]. left. split; [exact S0|]. split; [intros ? ? H; exact H|intros _; left; exact Hold]. }
     assert (Hnb : nb_blocks_of oti L = n) by (unfold nb_blocks_of; fold b e; rewrite Hpart; reflexivity).
     assert (Hchk : match sblv sbn with None => nb_blocks_of oti L <=? sbn | Some _ => false end = false).
     { unfold sblv. destruct us; [reflexivity|]. rewrite Hnb. apply N.leb_gt. exact Hlt. }
@@ -772,12 +831,12 @@ Section RSDelivery.
     { unfold d. rewrite F1. replace sbn with (r_off o + N.of_nat (N.to_nat off)) at 1 by (unfold off; lia).
       apply (dy_blocks _ _ Dy). }
     destruct (bd_completed d) eqn:Hc.
-    { cbn [POut]. left. split; [exact S0'|]. split; [exact M0|]. right. split; [exact Hge|].
+    { cbn [POut]. left. split; [exact S0'|]. split; [exact M0|]. intros _. right. split; [exact Hge|].
       unfold o0, set_blocks; prj. fold off. fold d. split; [|left; exact Hc].
       destruct (bd_init d) eqn:Hi; [reflexivity|]. destruct Bd as [B0 _]. rewrite B0 in Hc by exact Hi. discriminate. }
     destruct (bd_init d) eqn:Hi.
     - cbv iota beta.
-      apply (pout_weaken NiceEnv); [intros H; apply H|]. apply (pout_mono _ o o0); [exact M0|].
+      apply (pout_weaken _ NiceEnv); [intros H; apply H|]. apply (pout_mono _ _ o o0); [exact M0|].
       assert (BId : BlockInit sbn d) by (destruct Bd as [_ B1]; apply B1; exact Hi).
       refine (p2b_tail o0 c sbn esi (a_payload p) d (r_nb_alloc o) (r_alloc_size o) S0' Hge Hlt F3 Hc BId Hc _ _ Hesi Hpay).
       + intros _. split; reflexivity.
@@ -801,15 +860,20 @@ Section RSDelivery.
         pose proof (asum_le_M (upd_nthb (N.to_nat off) (fun x => mk_bdec false true 0 0 [] None false) bl0) (r_off o)) as B.
         replace (r_off o + N.of_nat (N.to_nat off)) with sbn in U by (unfold off; lia). lia. }
       assert (Hinit : bd_init_block oti (kof sbn) (bsz sbn) d
-                      = if (if cls then rs_ok (kof sbn) par else is_some_b (ro_scheme oti))
+                      = if (if cls then rs_ok (kof sbn) par else fq_dec_ok (kof sbn))
                         then Some (mk_bdec (bd_completed d) true (bsz sbn) (kof sbn) [] None true) else None).
-      { unfold bd_init_block. rewrite Hi. fold par. unfold cls.
-        destruct (ro_fec oti); try discriminate Hfec; try reflexivity; destruct (ro_scheme oti); reflexivity. }
-      rewrite Hinit. destruct (if cls then rs_ok (kof sbn) par else is_some_b (ro_scheme oti)) eqn:R.
+      { unfold bd_init_block. rewrite Hi. fold par e. unfold cls, fq_dec_ok.
+        destruct (ro_fec oti); try discriminate Hfec; try reflexivity.
+        - destruct (ro_scheme oti) as [[[z nn] al_]|]; [|reflexivity].
+          destruct ((e =? 0) || (al_ =? 0) || negb (e mod al_ =? 0) || (nn =? 0) || (kof sbn =? 0) || (RAPTORQ_KMAX <? kof sbn));
+            reflexivity.
+        - destruct (ro_scheme oti) as [x|]; [|reflexivity].
+          destruct ((kof sbn =? 0) || (RAPTOR_KMAX <? kof sbn)); reflexivity. }
+      rewrite Hinit. destruct (if cls then rs_ok (kof sbn) par else fq_dec_ok (kof sbn)) eqn:R.
       2:{ cbn [POut]. split; [exists WOpened; apply (st_writer _ St)|]. split; [eexists; apply (dy_log _ _ Dy)|].
           intros (_ & _ & _ & Hr). specialize (Hr sbn Hlt). destruct cls; rewrite Hr in R; discriminate. }
       cbv iota beta.
-      apply (pout_weaken NiceEnv); [intros H; apply H|]. apply (pout_mono _ o o0); [exact M0|].
+      apply (pout_weaken _ NiceEnv); [intros H; apply H|]. apply (pout_mono _ _ o o0); [exact M0|].
       set (b1 := mk_bdec (bd_completed d) true (bsz sbn) (kof sbn) [] None true).
       assert (BI1 : BlockInit sbn b1).
       { constructor; unfold b1; cbn [bd_init bd_k bd_size bd_alloc bd_shards bd_completed bd_data length map]; try reflexivity; try assumption.
@@ -826,15 +890,15 @@ Section RSDelivery.
   (* the close-object flag is harmless when it arrives with (or after) the packet that completes the
      object: it must not leave any receiving successor state *)
   Definition FlagOk (o : objrecv) (p : apkt) (s i : N) : Prop :=
-    a_close_obj p = true -> forall o1 c1, Struct o1 c1 -> Mono o o1 -> LiveOne s i o1 -> False.
+    a_close_obj p = true -> forall o1 c1, Struct o1 c1 -> Mono o o1 -> (sized (a_payload p) -> LiveOne s i o1) -> False.
 
   Lemma ptb o c p sbn esi : Struct o c -> genuine_at p sbn esi ->
-    POut (Nice2 /\ FlagOk o p sbn esi) o sbn esi (push_to_block E p o c).
+    POut (sized (a_payload p)) (Nice2 /\ FlagOk o p sbn esi) o sbn esi (push_to_block E p o c).
   Proof.
     intros S0 G. pose proof (p2b o c p sbn esi S0 G) as H. unfold push_to_block.
     destruct (push_to_block2 E p o c) as [[o1|o1] c1].
-    2:{ apply (pout_weaken Nice2); [tauto|exact H]. }
-    destruct (a_close_obj p) eqn:Hcl; [|apply (pout_weaken Nice2); [tauto|exact H]].
+    2:{ apply (pout_weaken _ Nice2); [tauto|exact H]. }
+    destruct (a_close_obj p) eqn:Hcl; [|apply (pout_weaken _ Nice2); [tauto|exact H]].
     cbn [POut] in H. destruct H as [(S1 & M1 & L1)|[(H1 & H2)|(H1 & H2 & H3)]].
     - pose proof S1 as (St1 & Dy1 & _). rewrite (st_state _ St1).
       destruct (error_res w o1 c1 _ true (st_writer _ St1)) as (o2 & Hcp & Hst). rewrite Hcp. cbn [POut].
@@ -845,13 +909,13 @@ Section RSDelivery.
         [left|right]; exact H1.
   Qed.
 
-  Definition StepOut (nice : Prop) (o : objrecv) (s i : N) (r : objrecv * ctx) : Prop :=
+  Definition StepOut (P nice : Prop) (o : objrecv) (s i : N) (r : objrecv * ctx) : Prop :=
     let (o', c') := r in
-    (Struct o' c' /\ Mono o o' /\ LiveOne s i o') \/ (r_state o' = Completed /\ SDone c')
+    (Struct o' c' /\ Mono o o' /\ (P -> LiveOne s i o')) \/ (r_state o' = Completed /\ SDone c')
     \/ (bad o' /\ SErr c' /\ ~ nice).
 
   Lemma step o c p sbn esi : Struct o c -> genuine_at p sbn esi ->
-    StepOut (Nice2 /\ FlagOk o p sbn esi) o sbn esi (or_push E p o c).
+    StepOut (sized (a_payload p)) (Nice2 /\ FlagOk o p sbn esi) o sbn esi (or_push E p o c).
   Proof.
     intros S0 G. pose proof S0 as (St & Dy & _).
     rewrite or_push_static; [|exact St|unfold nb_block; exact (dy_nb _ _ Dy)].
@@ -947,18 +1011,18 @@ Section RSDelivery.
       covered (map rs_pid (pre ++ [p]) ++ seen).
 
   Lemma run_live pkts : forall o c seen, Mds -> Struct o c -> LiveAll seen o -> Nice2 ->
-    Forall genuine pkts -> close_ok seen pkts ->
+    Forall genuine pkts -> Forall (fun p => sized (a_payload p)) pkts -> close_ok seen pkts ->
     let (o', c') := run E pkts (o, c) in
     (Struct o' c' /\ LiveAll (List.rev (map rs_pid pkts) ++ seen) o') \/ (r_state o' = Completed /\ SDone c').
   Proof.
-    induction pkts as [|p pkts IH]; intros o c seen HM S0 Lv Nc G Cl; [left; split; assumption|].
-    inversion G as [|? ? Gp Gr]; subst. unfold run. cbn [fold_left fst snd].
+    induction pkts as [|p pkts IH]; intros o c seen HM S0 Lv Nc G Z Cl; [left; split; assumption|].
+    inversion G as [|? ? Gp Gr]; subst. inversion Z as [|? ? Zp Zr]; subst. unfold run. cbn [fold_left fst snd].
     pose proof (step o c p _ _ S0 Gp) as H. destruct (or_push E p o c) as [o1 c1]. cbn [StepOut] in H.
     assert (LvP : forall o2, Mono o o2 -> LiveOne (fst (rs_pid p)) (snd (rs_pid p)) o2 -> LiveAll (rs_pid p :: seen) o2).
     { intros o2 M2 L2 s i [Eq|Hin]; [rewrite Eq in L2; exact L2|apply M2, Lv, Hin]. }
     destruct H as [(S1 & M1 & L1)|[(H1 & H2)|(_ & _ & H3)]].
     - fold (run E pkts (o1, c1)).
-      specialize (IH o1 c1 (rs_pid p :: seen) HM S1 (LvP o1 M1 L1) Nc Gr).
+      specialize (IH o1 c1 (rs_pid p :: seen) HM S1 (LvP o1 M1 (L1 Zp)) Nc Gr Zr).
       assert (Cl1 : close_ok (rs_pid p :: seen) pkts).
       { intros pre q post Eq Hq. specialize (Cl (p :: pre) q post). rewrite Eq in Cl.
         specialize (Cl eq_refl Hq). revert Cl. apply covered_incl. intros x Hx. cbn [app map] in Hx.
@@ -968,15 +1032,16 @@ Section RSDelivery.
       destruct (run E pkts (o1, c1)) as [o' c']. cbn [map List.rev]. rewrite <- app_assoc. exact IH.
     - fold (run E pkts (o1, c1)). rewrite run_closed by congruence. right. split; assumption.
     - exfalso. apply H3. split; [exact Nc|]. intros Hcl o2 c2 S2 M2 L2.
-      apply (struct_not_covered o2 c2 (rs_pid p :: seen) HM S2 (LvP o2 M2 L2)).
+      apply (struct_not_covered o2 c2 (rs_pid p :: seen) HM S2 (LvP o2 M2 (L2 Zp))).
       generalize (Cl [] p pkts eq_refl Hcl). apply covered_incl. intros x Hx. exact Hx.
   Qed.
 
   Theorem deliver pkts o c : Mds -> Struct o c -> Nice2 -> Forall genuine pkts ->
+    Forall (fun p => sized (a_payload p)) pkts ->
     close_ok [] pkts -> covered (map rs_pid pkts) ->
     let (o', c') := run E pkts (o, c) in r_state o' = Completed /\ SDone c'.
   Proof.
-    intros HM S0 Nc G Cl Cov. pose proof (run_live pkts o c [] HM S0 (fun s i H => match H with end) Nc G Cl) as H.
+    intros HM S0 Nc G Z Cl Cov. pose proof (run_live pkts o c [] HM S0 (fun s i H => match H with end) Nc G Z Cl) as H.
     destruct (run E pkts (o, c)) as [o' c']. destruct H as [(S1 & Lv)|H]; [exfalso|exact H].
     apply (struct_not_covered o' c' _ HM S1 Lv). revert Cov. apply covered_incl.
     intros x Hx. rewrite app_nil_r. apply -> in_rev. exact Hx.
@@ -1015,7 +1080,8 @@ Section RSDelivery.
     assert (Hlen : length (r_blocks o3) = m) by (unfold o3; prj; apply repeat_length).
     assert (Hnb : 0 < nb_block o3) by (unfold nb_block; rewrite Hlen; unfold o3; prj; lia).
     assert (I3 : push_from_cache E o3 c3 = (o3, c3)).
-    { unfold push_from_cache. destruct (N.eqb_spec (nb_block o3) 0) as [G|_]; [lia|]. reflexivity. }
+    { unfold push_from_cache, cache_replay_blocked. change (r_oti o3) with (Some oti). cbv iota beta.
+      destruct (N.eqb_spec (nb_block o3) 0) as [G|_]; [lia|]. reflexivity. }
     assert (Hn0 : nth 0 (r_blocks o3) bdec_new = bdec_new) by (unfold o3; prj; apply nth_repeat).
     assert (I4 : write_blocks E (S (length (r_blocks o3))) 0 o3 c3 = (ROk o3, c3)).
     { cbn [write_blocks]. change (r_writer o3) with (Some (w, WOpened)). cbv iota beta.
@@ -1163,8 +1229,8 @@ Section TopRS.
     Forall (fun p => fst p < k_of al as_ nal s + ro_parity oti
                      /\ snd p = (if fst p <? k_of al as_ nal s then psym oti content (soff al as_ nal s + fst p) else rep s (fst p))) sh.
   Proof.
-    intros F. eapply Forall_impl; [|exact F]. intros p [H1 H2]. split; [exact (H1 Hcls)|].
-    rewrite H2. unfold esym. rewrite Hcls. reflexivity.
+    intros F. eapply Forall_impl; [|exact F]. intros p (H1 & H2 & _). split; [exact (H1 Hcls)|].
+    rewrite H2, stored_cls by exact Hcls. unfold esym. rewrite Hcls. reflexivity.
   Qed.
 
   Lemma top_sound : rs_oracle_sound E oti content rep toi ->
@@ -1233,6 +1299,7 @@ Proof.
     - split; [split; [exact Hwr|exact Hmd5]|]. split; [rewrite M_mem_need; exact Hmax|]. split; [rewrite <- Hnb; exact Hn|].
       apply (rs_blocks_ok_spec oti L); assumption.
     - apply rs_genuine_pkt_spec; [exact Hpart|exact G].
+    - apply Forall_forall. intros p _ F. destruct Hrsf as [X|X]; rewrite X in F; discriminate.
     - intros pre p post Eq Hp. rewrite app_nil_r. apply Cov. apply (Cl pre p post Eq Hp).
     - apply Cov. exact Rec. }
   destruct (run E pkts (o0, c0)) as [o c]. destruct D' as [D1 D2].
@@ -1494,15 +1561,27 @@ Proof.
 Qed.
 
 (* ================= the object-level statements: RaptorQ (FEC 6) and Raptor (FEC 1) ================= *)
-(* The block decoder of the model stores every symbol with a new ESI and asks the oracle after every push.
+(* The block decoder of the model asks the oracle after every push.  It stores a symbol with a new ESI,
+   RaptorQ: only if its size is E (any other size is discarded, fixes D10);
+   Raptor:  padded with zeros up to ceil(block length / k), the size of the largest source symbol (fixes D10).
    [enc s i] is the encoding symbol the sender's encoder produces for (sbn, esi) = (s, i), source and repair
    alike (universally quantified: the codes are not modelled). *)
 Definition obj_block (oti : roti) (content : list N) (s : N) : list N :=
   let '(al, as_, nal, _) := partition_of oti (lenN_ content) in blk_bytes oti content al as_ nal s.
 Definition obj_block_len (oti : roti) (L s : N) : N :=
   let '(al, as_, nal, _) := partition_of oti L in blen (ro_e oti) L al as_ nal s.
-Definition fq_shards_genuine (enc : N -> N -> list N) (s : N) (sh : list (N * list N)) : Prop :=
-  NoDup (map fst sh) /\ Forall (fun p => snd p = enc s (fst p)) sh.
+(* what the block decoder of block s hands to the decoder for a received payload x *)
+Definition fq_stored (oti : roti) (L s : N) (x : list N) : list N :=
+  match ro_fec oti with
+  | FRaptor => pad_to (raptor_symbol_size (obj_block_len oti L s) (rs_k oti L s)) x
+  | _ => x
+  end.
+(* the shards handed to the decoder are genuine for block s: distinct ESI, each the (Raptor: zero-padded) encoding
+   symbol the sender produced for it; RaptorQ: all of E bytes *)
+Definition fq_shards_genuine (oti : roti) (L : N) (enc : N -> N -> list N) (s : N) (sh : list (N * list N)) : Prop :=
+  NoDup (map fst sh)
+  /\ Forall (fun p => snd p = fq_stored oti L s (enc s (fst p))
+                      /\ (ro_fec oti = FRaptorQ -> lenN_ (snd p) = ro_e oti)) sh.
 (* a decoded block: the bytes of the block; the last block may be followed by padding (the RaptorQ decoder
    returns k * E bytes, the Raptor decoder the block length it was created with) *)
 Definition fq_block_good (oti : roti) (content : list N) (s : N) (d : list N) : Prop :=
@@ -1512,16 +1591,19 @@ Definition fq_block_good (oti : roti) (content : list N) (s : N) (d : list N) : 
    - sound:    given genuine symbols with distinct ESI (any number of them), whatever it answers is the block;
    - complete: given genuine symbols among which all k source symbols (ESI < k), it does answer. *)
 Definition fq_oracle_sound (E : env) (oti : roti) (content : list N) (enc : N -> N -> list N) (toi : N) : Prop :=
-  forall s sh d, s < nb_blocks_of oti (lenN_ content) -> fq_shards_genuine enc s sh ->
+  forall s sh d, s < nb_blocks_of oti (lenN_ content) -> fq_shards_genuine oti (lenN_ content) enc s sh ->
     e_fec E toi (ro_fec oti) s (rs_k oti (lenN_ content) s) (ro_e oti) (obj_block_len oti (lenN_ content) s) sh = Some d ->
     fq_block_good oti content s d.
 Definition fq_oracle_complete (E : env) (oti : roti) (content : list N) (enc : N -> N -> list N) (toi : N) : Prop :=
-  forall s sh, s < nb_blocks_of oti (lenN_ content) -> fq_shards_genuine enc s sh ->
+  forall s sh, s < nb_blocks_of oti (lenN_ content) -> fq_shards_genuine oti (lenN_ content) enc s sh ->
     (forall j, j < rs_k oti (lenN_ content) s -> has_esi j sh = true) ->
     e_fec E toi (ro_fec oti) s (rs_k oti (lenN_ content) s) (ro_e oti) (obj_block_len oti (lenN_ content) s) sh <> None.
 
 Definition fq_genuine_pkt (oti : roti) (content : list N) (enc : N -> N -> list N) (p : apkt) : bool :=
   let '(al, as_, nal, n) := partition_of oti (lenN_ content) in genuineb oti content enc al as_ nal n p.
+(* RaptorQ: the payload has exactly E bytes (the sender pads the last source symbol); needed for DELIVERY only *)
+Definition fq_sized_pkt (oti : roti) (p : apkt) : bool :=
+  match ro_fec oti with FRaptorQ => lenN_ (a_payload p) =? ro_e oti | _ => true end.
 (* the recoverability premise of Spec/SessionSpec for the other schemes: every source symbol of every block *)
 Definition fq_recoverable (oti : roti) (L : N) (pkts : list apkt) : bool :=
   blocks_recoverable false 0 (source_ks oti L) 0 (map (rs_pid oti) pkts).
@@ -1534,10 +1616,22 @@ Proof.
 Qed.
 Definition fq_scheme_ok (oti : roti) (L : N) : Prop :=
   (ro_fec oti = FRaptorQ \/ ro_fec oti = FRaptor) /\ 0 < ro_e oti /\ 0 < ro_b oti /\ 0 < L /\ L + ro_e oti < U64.
+(* the decoder of every block can be created (fixes D28, D34):
+   RaptorQ: scheme-specific information (Z, N, Al) present with Al <> 0, E mod Al = 0, N <> 0, and k <= 56403;
+   Raptor:  scheme-specific information present and k <= 8192 *)
+Definition fq_blocks_ok (oti : roti) (L : N) : Prop :=
+  forallb (fq_dec_ok oti) (source_ks oti L) = true.
 
 Lemma fq_is_fq oti : ro_fec oti = FRaptorQ \/ ro_fec oti = FRaptor ->
   cls oti = false /\ us oti = false /\ fec_oracle (ro_fec oti) = true.
 Proof. unfold cls, us. intros [H|H]; rewrite H; repeat split; reflexivity. Qed.
+
+Lemma fq_blocks_ok_spec oti L al as_ nal n : cls oti = false -> partition_of oti L = (al, as_, nal, n) ->
+  fq_blocks_ok oti L -> InitOk oti al as_ nal n.
+Proof.
+  intros Hcls Hp H s Hs. rewrite Hcls. unfold fq_blocks_ok, source_ks in H. rewrite Hp in H. rewrite forallb_forall in H.
+  apply H. apply in_map. apply in_below. exact Hs.
+Qed.
 
 Section TopFQ.
   Variables (E : env) (oti : roti) (content : list N) (enc : N -> N -> list N) (toi : N).
@@ -1550,13 +1644,17 @@ Section TopFQ.
   Hypothesis Hu : lenN_ content + ro_e oti < U64.
   Hypothesis Hpart : partition_of oti (lenN_ content) = (al, as_, nal, n).
 
-  Lemma fq_shards_conv s sh : Forall (shard_ok oti content enc al as_ nal s) sh ->
-    Forall (fun p => snd p = enc s (fst p)) sh.
-  Proof.
-    intros F. eapply Forall_impl; [|exact F]. intros p [_ H2]. rewrite H2. unfold esym. rewrite Hcls. reflexivity.
-  Qed.
   Lemma fq_bsz s : s < n -> bsz oti content al as_ nal s = blen (ro_e oti) (lenN_ content) al as_ nal s.
   Proof. intros Hs. rewrite (bsz_spec oti content al as_ nal n He Hb HL Hu Hpart s Hs), Hus. reflexivity. Qed.
+  Lemma fq_stored_eq s x : s < n -> stored oti content al as_ nal s x = fq_stored oti (lenN_ content) s x.
+  Proof. intros Hs. unfold stored, fq_stored, obj_block_len, rs_k. rewrite Hpart, (fq_bsz s Hs). reflexivity. Qed.
+  Lemma fq_shards_conv s sh : s < n -> Forall (shard_ok oti content enc al as_ nal s) sh ->
+    Forall (fun p => snd p = fq_stored oti (lenN_ content) s (enc s (fst p))
+                     /\ (ro_fec oti = FRaptorQ -> lenN_ (snd p) = ro_e oti)) sh.
+  Proof.
+    intros Hs F. eapply Forall_impl; [|exact F]. intros p (_ & H2 & H3). split; [|exact H3].
+    rewrite H2, (fq_stored_eq _ _ Hs). unfold esym. rewrite Hcls. reflexivity.
+  Qed.
 
   Lemma fq_good s d : s < n -> fq_block_good oti content s d -> Good oti content al as_ nal n s d.
   Proof.
@@ -1575,16 +1673,18 @@ Section TopFQ.
       Good oti content al as_ nal n s d.
   Proof.
     intros H s sh d Hs _ ND F O. specialize (H s sh d). rewrite (fq_bsz s Hs) in O.
+    pose proof (fq_shards_conv s sh Hs F) as F'.
     unfold fq_shards_genuine, rs_k, obj_block_len, nb_blocks_of in H. fold (partition_of oti (lenN_ content)) in H.
     rewrite Hpart in H. apply fq_good; [exact Hs|].
-    apply H; [exact Hs|split; [exact ND|apply fq_shards_conv; exact F]|exact O].
+    apply H; [exact Hs|split; [exact ND|exact F']|exact O].
   Qed.
   Lemma top_complete_fq : fq_oracle_complete E oti content enc toi -> Mds E oti content enc toi al as_ nal n.
   Proof.
     intros H s sh Hs Hk ND F. specialize (H s sh). rewrite (fq_bsz s Hs).
+    pose proof (fq_shards_conv s sh Hs F) as F'.
     unfold fq_shards_genuine, rs_k, obj_block_len, nb_blocks_of in H. fold (partition_of oti (lenN_ content)) in H.
     rewrite Hpart in H. unfold Decodable in Hk. rewrite Hcls in Hk.
-    apply H; [exact Hs|split; [exact ND|apply fq_shards_conv; exact F]|exact Hk].
+    apply H; [exact Hs|split; [exact ND|exact F']|exact Hk].
   Qed.
 End TopFQ.
 
@@ -1595,17 +1695,21 @@ Proof.
   intros Hp F. eapply Forall_impl; [|exact F]. intros p H. unfold fq_genuine_pkt in H. rewrite Hp in H.
   apply genuineb_spec. exact H.
 Qed.
+Lemma fq_sized_pkt_spec oti pkts :
+  Forall (fun p => fq_sized_pkt oti p = true) pkts -> Forall (fun p => sized oti (a_payload p)) pkts.
+Proof. intros F. eapply Forall_impl; [|exact F]. intros p H. apply accb_sized. exact H. Qed.
 
 (* T1fq - C02 for RaptorQ / Raptor: a reception with every source symbol of every block (plus any repair
    symbols, any order, any duplication) delivers the object byte-exact, GIVEN a sound decoder that answers
    when all source symbols are present.  (Recovery from fewer source symbols is entirely the decoder's.) *)
 Theorem fq_recoverable_delivers E oti content enc toi max fid files inst md5 pkts :
   let L := lenN_ content in
-  fq_scheme_ok oti L -> ro_scheme oti <> None -> fdt_entry_for files inst toi oti L md5 ->
+  fq_scheme_ok oti L -> fq_blocks_ok oti L -> fdt_entry_for files inst toi oti L md5 ->
   writer_accepts E toi -> writes_succeed E toi -> md5_good E content md5 ->
   fq_oracle_sound E oti content enc toi -> fq_oracle_complete E oti content enc toi ->
   L <= max -> nb_blocks_of oti L <= 4097 ->
   Forall (fun p => fq_genuine_pkt oti content enc p = true) pkts ->
+  Forall (fun p => fq_sized_pkt oti p = true) pkts ->
   fq_close_flag_ok oti L pkts ->
   fq_recoverable oti L pkts = true ->
   let (o, c) := receive E fid files inst toi max pkts in
@@ -1614,7 +1718,7 @@ Theorem fq_recoverable_delivers E oti content enc toi max fid files inst md5 pkt
   /\ forall m, complete_exact content (m, calls_of (toi, 0%nat) (c_log c)) = true
                 /\ P_C02_object (fq_recoverable oti L pkts) content [(m, calls_of (toi, 0%nat) (c_log c))] = true.
 Proof.
-  intros L (Hf & He & Hb & HL & Hu) Hsch (f & F1 & F2 & F3 & F4 & F5) (A1 & A2) Hwr Hmd5 Hos Hoc Hmax Hn G Cl Rec.
+  intros L (Hf & He & Hb & HL & Hu) Hsch (f & F1 & F2 & F3 & F4 & F5) (A1 & A2) Hwr Hmd5 Hos Hoc Hmax Hn G Z Cl Rec.
   destruct (fq_is_fq oti Hf) as (Hcls & Hus & Hfec).
   destruct (partition_of oti L) as [[[al as_] nal] n] eqn:Hpart.
   pose proof Hpart as Hpart'. unfold partition_of in Hpart'.
@@ -1630,8 +1734,9 @@ Proof.
   assert (D' : let (o', c') := run E pkts (o0, c0) in r_state o' = Completed /\ ShapeDone content (toi, 0%nat) toi c').
   { apply D.
     - split; [split; [exact Hwr|exact Hmd5]|]. split; [unfold M; rewrite Hus; exact Hmax|]. split; [rewrite <- Hnb; exact Hn|].
-      intros s Hs. rewrite Hcls. destruct (ro_scheme oti); [reflexivity|congruence].
+      apply (fq_blocks_ok_spec oti L); assumption.
     - apply fq_genuine_pkt_spec; [exact Hpart|exact G].
+    - apply fq_sized_pkt_spec. exact Z.
     - intros pre p post Eq Hp. rewrite app_nil_r. apply Cov. apply (Cl pre p post Eq Hp).
     - apply Cov. exact Rec. }
   destruct (run E pkts (o0, c0)) as [o c]. destruct D' as [D1 D2].
@@ -1640,7 +1745,8 @@ Proof.
   unfold P_C02_object. cbn [existsb]. rewrite Ex. cbn [orb]. apply orb_true_r.
 Qed.
 
-(* T2fq - C03 for RaptorQ / Raptor (safety): any genuine packets, GIVEN a sound decoder *)
+(* T2fq - C03 for RaptorQ / Raptor (safety): any genuine packets (whatever their size, whatever the scheme-specific
+   information and k are), GIVEN a sound decoder *)
 Theorem fq_safety E oti content enc toi max fid files inst md5 pkts :
   let L := lenN_ content in
   fq_scheme_ok oti L -> fdt_entry_for files inst toi oti L md5 -> writer_accepts E toi ->
@@ -1685,14 +1791,19 @@ Lemma sys_dec_oracle E oti content rep toi :
 Proof.
   intros HE He Hb HL. split.
   - intros s sh d Hs [ND F] O. rewrite HE in O. unfold sys_dec in O.
-    unfold fq_block_good, obj_block, rs_symbol, rs_k, nb_blocks_of in *. fold (partition_of oti (lenN_ content)) in *.
+    unfold fq_block_good, fq_stored, obj_block, rs_symbol, rs_k, nb_blocks_of, obj_block_len in *.
+    fold (partition_of oti (lenN_ content)) in *.
     destruct (partition_of oti (lenN_ content)) as [[[al as_] nal] n] eqn:Hpart.
     pose proof Hpart as Hpart'. unfold partition_of in Hpart'.
     assert (Hd : d = pblk oti content al as_ nal s).
     { rewrite (concat_src_pad oti content He Hb HL (k_of al as_ nal s) (soff al as_ nal s) sh) with (m := N.to_nat (k_of al as_ nal s)) (i := 0) (d := d).
       - unfold pblk. f_equal; [lia|]. f_equal. lia.
-      - eapply Forall_impl; [|exact F]. intros p Hp Hlt. cbv beta in Hp. rewrite Hp.
-        destruct (N.ltb_spec (fst p) (k_of al as_ nal s)); [reflexivity|lia].
+      - eapply Forall_impl; [|exact F]. intros p [Hp _] Hlt. cbv beta in Hp. rewrite Hp.
+        destruct (N.ltb_spec (fst p) (k_of al as_ nal s)) as [_|X]; [|lia].
+        destruct (ro_fec oti); try reflexivity. apply pad_to_ge.
+        pose proof (soff_k_le oti content al as_ nal n He Hb HL Hpart' s Hs) as K.
+        rewrite (psym_len oti content al as_ nal n He Hb HL Hpart') by lia.
+        apply (rss_le oti content al as_ nal n He Hb HL Hpart' s Hs).
       - lia.
       - exact O. }
     destruct (pblk_good oti content al as_ nal n He Hb HL Hpart' s Hs) as [G1 G2].
@@ -1720,6 +1831,8 @@ Definition exq_pkts : list apkt :=
 
 Example exq_premises :
   forallb (fq_genuine_pkt exq_oti exr_content exq_enc) exq_pkts = true
+  /\ forallb (fq_sized_pkt exq_oti) exq_pkts = true
+  /\ forallb (fq_dec_ok exq_oti) (source_ks exq_oti 5) = true
   /\ map (rs_pid exq_oti) exq_pkts = [(1, 0); (0, 5); (0, 1); (1, 0); (0, 0)]
   /\ fq_recoverable exq_oti 5 exq_pkts = true
   /\ fq_recoverable exq_oti 5 (firstn 4 exq_pkts) = false
@@ -1743,7 +1856,7 @@ Proof.
                            /\ P_C02_object (fq_recoverable exq_oti (lenN_ exr_content) exq_pkts) exr_content [(m, calls_of (7, 0%nat) (c_log c))] = true).
   { apply H.
     - split; [left; reflexivity|]. repeat split; vm_compute; reflexivity.
-    - discriminate.
+    - vm_compute. reflexivity.
     - exists (mk_ff 7 CNull (Some exq_oti) 5 None None false). repeat split.
     - split; reflexivity.
     - intros i. reflexivity.
@@ -1752,6 +1865,7 @@ Proof.
     - exact Oc.
     - vm_compute. discriminate.
     - vm_compute. discriminate.
+    - repeat constructor.
     - repeat constructor.
     - apply fq_close_flag_ok_noflag. repeat constructor.
     - vm_compute. reflexivity. }
@@ -1766,9 +1880,62 @@ Definition exp_pkts : list apkt :=
   [rp_pkt 7 1 0 false [5; 0]; rp_pkt 7 0 1 false [3; 4]; rp_pkt 7 0 9 false [7; 7]; rp_pkt 7 0 0 false [1; 2]].
 Example exp_delivery_computed :
   forallb (fq_genuine_pkt exp_oti exr_content (rs_symbol exp_oti exr_content exq_rep)) exp_pkts = true
+  /\ forallb (fq_dec_ok exp_oti) (source_ks exp_oti 5) = true
   /\ fq_recoverable exp_oti 5 exp_pkts = true
   /\ summary 7 (receive env_sys 1 exp_files None 7 1000 exp_pkts)
      = (Completed, [CallOpen true; CallWrite [1; 2; 3; 4] true; CallWrite [5] true; CallComplete]).
+Proof. vm_compute. repeat split. Qed.
+
+Example exp_delivery_by_theorem :
+  let (o, c) := receive env_sys 1 exp_files None 7 1000 exp_pkts in
+  r_state o = Completed
+  /\ complete_exact exr_content (mk_ometa [] None None None None [] None (0, 0), calls_of (7, 0%nat) (c_log c)) = true.
+Proof.
+  pose proof (fq_recoverable_delivers env_sys exp_oti exr_content (rs_symbol exp_oti exr_content exq_rep)
+                7 1000 1 exp_files None None exp_pkts) as H.
+  cbv zeta in H.
+  destruct (sys_dec_oracle env_sys exp_oti exr_content exq_rep 7 (fun _ _ _ _ _ _ _ => eq_refl)
+              ltac:(vm_compute; reflexivity) ltac:(vm_compute; reflexivity) ltac:(vm_compute; reflexivity)) as [Os Oc].
+  assert (P : let (o, c) := receive env_sys 1 exp_files None 7 1000 exp_pkts in
+              r_state o = Completed /\ ShapeDone exr_content (7, 0%nat) 7 c
+              /\ forall m, complete_exact exr_content (m, calls_of (7, 0%nat) (c_log c)) = true
+                           /\ P_C02_object (fq_recoverable exp_oti (lenN_ exr_content) exp_pkts) exr_content [(m, calls_of (7, 0%nat) (c_log c))] = true).
+  { apply H.
+    - split; [right; reflexivity|]. repeat split; vm_compute; reflexivity.
+    - vm_compute. reflexivity.
+    - exists (mk_ff 7 CNull (Some exp_oti) 5 None None false). repeat split.
+    - split; reflexivity.
+    - intros i. reflexivity.
+    - exact I.
+    - exact Os.
+    - exact Oc.
+    - vm_compute. discriminate.
+    - vm_compute. discriminate.
+    - repeat constructor.
+    - repeat constructor.
+    - apply fq_close_flag_ok_noflag. repeat constructor.
+    - vm_compute. reflexivity. }
+  destruct (receive env_sys 1 exp_files None 7 1000 exp_pkts) as [o c]. destruct P as (P1 & _ & P3).
+  split; [exact P1|apply P3].
+Qed.
+
+(* Raptor, the receiver's padding at work: a 3-byte object, E = 2, one block of k = 2 symbols and 3 bytes; the
+   sender's last source symbol is the 1-byte slice [3]; the block decoder stores it padded to ceil(3 / 2) = 2
+   bytes, the toy decoder answers [1; 2; 3; 0] and the block writer keeps the 3 bytes of the object.
+   The genuine symbols [enc] are the UNPADDED ones; what the oracle hypotheses speak about is fq_stored *)
+Definition exs_oti : roti := mk_roti FRaptor 2 2 1 (Some (1, 1, 1)).
+Definition exs_content : list N := [1; 2; 3].
+Definition exs_enc (s i : N) : list N := if i =? 0 then [1; 2] else if i =? 1 then [3] else [7; 7].
+Definition exs_files : list fdtfile := [mk_ff 7 CNull (Some exs_oti) 3 None None false].
+Definition exs_pkts : list apkt := [rp_pkt 7 0 1 false [3]; rp_pkt 7 0 0 false [1; 2]].
+Example raptor_short_symbol_is_padded :
+  forallb (fq_genuine_pkt exs_oti exs_content exs_enc) exs_pkts = true
+  /\ fq_recoverable exs_oti 3 exs_pkts = true
+  /\ fq_stored exs_oti 3 0 (exs_enc 0 1) = [3; 0]
+  /\ fst (bd_push env_sys 7 exs_oti 0 1 [3] (mk_bdec false true 3 2 [] None true))
+     = mk_bdec false true 3 2 [(1, [3; 0])] None true
+  /\ summary 7 (receive env_sys 1 exs_files None 7 1000 exs_pkts)
+     = (Completed, [CallOpen true; CallWrite [1; 2; 3] true; CallComplete]).
 Proof. vm_compute. repeat split. Qed.
 
 (* REFUTATION C (RaptorQ / Raptor without scheme-specific information): the decoder cannot be created *)
@@ -1776,6 +1943,59 @@ Definition exn_oti : roti := mk_roti FRaptorQ 2 2 1 None.
 Definition exn_files : list fdtfile := [mk_ff 7 CNull (Some exn_oti) 5 None None false].
 Example fq_scheme_missing_refuted :
   forallb (fq_genuine_pkt exn_oti exr_content (rs_symbol exn_oti exr_content exq_rep)) exq_pkts = true
+  /\ forallb (fq_sized_pkt exn_oti) exq_pkts = true
   /\ fq_recoverable exn_oti 5 exq_pkts = true
+  /\ forallb (fq_dec_ok exn_oti) (source_ks exn_oti 5) = false
   /\ summary 7 (receive env_sys 1 exn_files None 7 1000 exq_pkts) = (Errored, [CallOpen true; CallError]).
+Proof. vm_compute. repeat split. Qed.
+
+(* REFUTATION D (RaptorQ scheme parameters outside the raptorq crate's range, fixes D28): with Al = 0, with E not a
+   multiple of Al (E = 2, Al = 4), or with N = 0 sub-blocks the decoder of the first block cannot be created and the
+   object is Errored although every source symbol arrives with the right size *)
+Definition exd_oti (sch : N * N * N) : roti := mk_roti FRaptorQ 2 2 1 (Some sch).
+Definition exd_files (sch : N * N * N) : list fdtfile := [mk_ff 7 CNull (Some (exd_oti sch)) 5 None None false].
+Definition exd_bad (sch : N * N * N) : Prop :=
+  forallb (fq_genuine_pkt (exd_oti sch) exr_content (rs_symbol (exd_oti sch) exr_content exq_rep)) exq_pkts = true
+  /\ forallb (fq_sized_pkt (exd_oti sch)) exq_pkts = true
+  /\ fq_recoverable (exd_oti sch) 5 exq_pkts = true
+  /\ forallb (fq_dec_ok (exd_oti sch)) (source_ks (exd_oti sch) 5) = false
+  /\ summary 7 (receive env_sys 1 (exd_files sch) None 7 1000 exq_pkts) = (Errored, [CallOpen true; CallError]).
+Example rq_scheme_parameters_refuted : exd_bad (1, 1, 0) /\ exd_bad (1, 1, 4) /\ exd_bad (1, 0, 1).
+Proof. vm_compute. repeat split. Qed.
+
+(* REFUTATION E (more source symbols in a block than the decoder supports, fixes D28 / D34): RaptorQ with
+   k = 56404 > K'_max = 56403, Raptor with k = 8193 > K_max = 8192 (E = 1, one block): the first genuine packet makes
+   the object Errored; with k = K_max the same packet is stored *)
+Definition exk_oti (f : rfec) (k : N) : roti := mk_roti f 1 k 1 (Some (1, 1, 1)).
+Definition exk_files (f : rfec) (k : N) : list fdtfile := [mk_ff 7 CNull (Some (exk_oti f k)) k None None false].
+Example fq_block_too_large_refuted :
+  source_ks (exk_oti FRaptorQ 56404) 56404 = [56404]
+  /\ forallb (fq_dec_ok (exk_oti FRaptorQ 56404)) [56404] = false
+  /\ forallb (fq_dec_ok (exk_oti FRaptorQ 56403)) [56403] = true
+  /\ summary 7 (receive env_sys 1 (exk_files FRaptorQ 56404) None 7 100000 [rq_pkt 7 0 0 false [1]])
+     = (Errored, [CallOpen true; CallError])
+  /\ summary 7 (receive env_sys 1 (exk_files FRaptorQ 56403) None 7 100000 [rq_pkt 7 0 0 false [1]])
+     = (Receiving, [CallOpen true])
+  /\ source_ks (exk_oti FRaptor 8193) 8193 = [8193]
+  /\ forallb (fq_dec_ok (exk_oti FRaptor 8193)) [8193] = false
+  /\ forallb (fq_dec_ok (exk_oti FRaptor 8192)) [8192] = true
+  /\ summary 7 (receive env_sys 1 (exk_files FRaptor 8193) None 7 100000 [rp_pkt 7 0 0 false [1]])
+     = (Errored, [CallOpen true; CallError])
+  /\ summary 7 (receive env_sys 1 (exk_files FRaptor 8192) None 7 100000 [rp_pkt 7 0 0 false [1]])
+     = (Receiving, [CallOpen true]).
+Proof. vm_compute. repeat split. Qed.
+
+(* REFUTATION F (RaptorQ symbol whose size is not E, fixes D10): a sender that does not pad the last source symbol
+   ([5] instead of [5; 0]): every packet is genuine for that encoder and every source symbol arrives, but the 1-byte
+   symbol is discarded by the block decoder and the object is never completed; fq_sized_pkt excludes it *)
+Definition exf_enc (s i : N) : list N := if (s =? 1) && (i =? 0) then [5] else exq_enc s i.
+Definition exf_pkts : list apkt :=
+  [rq_pkt 7 0 0 false [1; 2]; rq_pkt 7 0 1 false [3; 4]; rq_pkt 7 1 0 false [5]].
+Example rq_symbol_size_refuted :
+  forallb (fq_genuine_pkt exq_oti exr_content exf_enc) exf_pkts = true
+  /\ fq_recoverable exq_oti 5 exf_pkts = true
+  /\ forallb (fq_dec_ok exq_oti) (source_ks exq_oti 5) = true
+  /\ map (fq_sized_pkt exq_oti) exf_pkts = [true; true; false]
+  /\ summary 7 (receive env_sys 1 exq_files None 7 1000 exf_pkts)
+     = (Receiving, [CallOpen true; CallWrite [1; 2; 3; 4] true]).
 Proof. vm_compute. repeat split. Qed.
